@@ -66,7 +66,9 @@ def gen(rng, n):
             if rng.chance(1, 2):
                 d["SEND_WINDOW"] = rng.choice([100, 1500, 5000])
             d["READ_DELAY_US"] = rng.choice([0, 1000, 30000])
-            d["STREAM_BYTES"] = rng.choice([900, 5000, 20000])
+            small = min(d.get("STREAM_RWND", 1 << 30), d.get("RWND", 1 << 30), d.get("SEND_WINDOW", 1 << 30))
+            d["STREAM_BYTES"] = rng.choice([1, 20, 60]) if small <= 1 else rng.choice([100, 900, 3000]) if small <= 100 else rng.choice([900, 5000, 20000])
+            d["ECHO_BYTES"] = min(d["ECHO_BYTES"], d["STREAM_BYTES"])
             d["WRITE_CHUNK"] = rng.choice([700, 4000, 100000])
             d["READ_MAX"] = rng.choice([800, 4096, 100000])
         elif m == 2:    # blocked openers
